@@ -35,9 +35,11 @@ def _opts(rng, typed, how):
         o.captured_ints = ("CAP_A", "CAP_B")
         o.helpers = tuple((n, k) for n, (k, _) in HELPERS.items())
         # lambda parameters spelled like the helpers' own parameters: arguments are bound in parallel, not one by one
-        o.extra_binder_names = ("a", "b", "v", "a", "b")
+        # ... and like the names the backend simplifier generates (arg_N): they are reserved, never captured
+        o.extra_binder_names = ("a", "b", "v", "a", "b", "arg_0", "arg_1")
         o.rec_ctor = True
     else:
+        o.extra_binder_names = ("arg_0", "arg_1", "arg_2")
         o.rec_ctor = True  # records made upstream by constructors are read by attribute; strings make none themselves
     return o
 
